@@ -102,7 +102,9 @@ def asCtx (i : Json) : R Ctx := do
   let otf ← asBool (← field i "otf")
   let reloaded ← asBool (← field i "reloaded")
   let written ← match i.getObjVal? "cffWritten" with | .ok v => asBool v | .error _ => pure reloaded
-  return { otf := otf, reloaded := reloaded, glyf := !otf, cffWritten := written || reloaded }
+  -- "glyf" may be given separately (a CFF2 variable font: neither a CFF table nor TrueType outlines)
+  let glyf ← match i.getObjVal? "glyf" with | .ok v => asBool v | .error _ => pure (!otf)
+  return { otf := otf, reloaded := reloaded, glyf := glyf, cffWritten := written || reloaded }
 
 /-- op "font": in = {info, env, otf, reloaded}; obs = {err} | {err:null, fields, names} -/
 def font (req : Json) : R Reply := do
@@ -222,6 +224,26 @@ def infoc (req : Json) : R Reply := do
   let oerr ← asOpt asStr (← field obs "err")
   -- the shape of the repaired finding "infocompiler-missing-table", for classification of a recurrence
   let mt := Json.bool (missingTable (mergeInfo base over) env bv bg)
+  if noOverrides over then
+    -- `if self.info:` — no overrides, InfoCompiler does not run: the font is the compile of the source info
+    let E := getV base envBase
+    let wf := wfInfo base
+    match compile base envBase ctx with
+    | .error e =>
+      let ok := !wf && oerr.isSome
+      return { model := Json.mkObj [("err", errJ e), ("_failed", partsJ [("compiles", ok)]), ("_wf", Json.bool wf),
+                                    ("_missingTable", Json.bool false)], holds := ok }
+    | .ok o =>
+      match oerr with
+      | some _ => return { model := ((outJ o).setObjVal! "_failed" (partsJ [("compiles", !wf)])).setObjVal! "_wf" (Json.bool wf),
+                           holds := !wf }
+      | none =>
+        let oo ← asOut obs
+        let parts := [("rows", holdsRows E ctx oo.fields), ("derived", holdsDerived E base envBase ctx oo.fields),
+                      ("names", holdsNames E envBase oo.names), ("psname", holdsGeneratedPsName E base)]
+        return { model := ((outJ o).setObjVal! "_failed" (partsJ parts)).setObjVal! "_wf" (Json.bool wf),
+                 holds := parts.all (·.2) }
+  else
   match infoCompile base over env envBase ctx bv bg with
   | .error e =>
     -- the statement: valid info (here: valid base and valid overrides) is applied without error
@@ -242,9 +264,32 @@ def infoc (req : Json) : R Reply := do
       let E := getV merged env
       let ok := (rows.filter (fun r => infoCompilerField r.field && r.cond != .vertical)).all (fun r =>
         !condHolds r.cond E { ctx with otf := false, glyf := false, cffWritten := false } r.attr || oo.fields r.field == applyConv r.conv (E r.attr))
+      -- (for a font built by varLib — stream "history" via compileVariable* — the harness leaves out the name records
+      -- whose IDs fvar/STAT refer to: varLib adds those)
       let parts := [("rows", ok), ("names", holdsNamesOverride E (getV base envBase) env envBase oo.names),
                     ("psname", holdsGeneratedPsName E merged)]
       return { model := (outJ o).setObjVal! "_failed" (partsJ parts), holds := parts.all (·.2) }
+
+/-- op "srcinfo": a history on ONE source object.  in = {base, envBase, otf, reloaded, steps:[{over, env, baseVertical,
+    baseGasp}]}; obs = the source's font info read back after the whole history (same encoding as `base`).
+    model = the source info `infoCompileSeq` leaves behind; holds = the observed info is the info before. -/
+def srcinfo (req : Json) : R Reply := do
+  let i ← field req "in"
+  let base ← asInfo (← field i "base")
+  let envBase ← asEnv (← field i "envBase")
+  let ctx ← asCtx i
+  let steps ← asList (fun j => do
+    return ({ over := ← asInfo (← field j "over"), env := ← asEnv (← field j "env"),
+              baseVertical := ← asBool (← field j "baseVertical"), baseGasp := ← asBool (← field j "baseGasp") } : SeqStep))
+    (← field i "steps")
+  let after ← asInfo (← field req "obs")
+  let fin := match infoCompileSeq base envBase ctx steps with
+    | .ok (_, fin) => fin
+    | .error _ => base        -- an exception leaves the source as it is, too: nothing is ever written to it
+  let infoJ (x : Info) : Json := Json.mkObj ((Attr.all.filter (fun a => x a != .none)).map (fun a => (attrName a, valJ (x a))))
+  let changed := Attr.all.filter (fun a => after a != base a)
+  return { model := Json.mkObj [("info", infoJ fin), ("_changed", strsJ (changed.map attrName))],
+           holds := holdsSourceUnchanged base after }
 
 def handle (op : String) (req : Json) : R Reply :=
   match op with
@@ -256,6 +301,7 @@ def handle (op : String) (req : Json) : R Reply :=
   | "bits" => bitsOp req
   | "float" => floatOp req
   | "infocompiler" => infoc req
+  | "srcinfo" => srcinfo req
   | _ => throw s!"C16: unknown op {op}"
 
 end Ufo2ft.Drv.C16
